@@ -89,31 +89,41 @@ def readAllLoop (dev : Bool) (a : Nat) : Nat → List (Option Nat) → Prog (Lis
     | .byte b => readAllLoop dev a n (acc ++ [some b])
     | .err => .done (acc, true)
 
+/-- the reads of `read_all`, the un-latch (F3 repair: ENABLE WRITE MEMORY first; K2
+repair: also on the framing-error exit) and the outcome -/
+def readAllTail (dev : Bool) (a : Nat) (latch : Bool) (start last : Nat) : Prog (List (Option Nat)) :=
+  (readAllLoop dev a (last + 1 - start) (List.replicate start none)).bind fun res =>
+  let fin : Prog (List (Option Nat)) :=
+    if res.2 then .fail .ResponseError else .done res.1
+  if latch then
+    .send (.enableWriteMemory dev a) fun _ =>
+    .send (.dtr0 dev 2) fun _ =>
+    .send (.writeMemoryLocationNoReply dev 0xFF) fun _ => fin
+  else fin
+
+/-- `read_all` after the last address is known: optional latch, DTR0 := start, reads -/
+def readAllFrom (dev : Bool) (a bank : Nat) (latch : Bool) (last : Nat) : Prog (List (Option Nat)) :=
+  let start := if bank = 0 then 2 else 3
+  if latch then
+    .send (.enableWriteMemory dev a) fun _ =>
+    .send (.dtr0 dev 2) fun _ =>
+    .send (.writeMemoryLocationNoReply dev 0xAA) fun _ =>
+      if 3 ≠ start then .send (.dtr0 dev start) fun _ => readAllTail dev a latch start last
+      else readAllTail dev a latch start last
+  else
+    if 1 ≠ start then .send (.dtr0 dev start) fun _ => readAllTail dev a latch start last
+    else readAllTail dev a latch start last
+
+/-- `read_all` for a resolved address: `LastAddress.read`, then the rest -/
+def readAllBody (dev : Bool) (a bank : Nat) (hasLatch useLatch : Bool) : Prog (List (Option Nat)) :=
+  (readRaw (if dev then .devShort a else .gearShort a) bank [0]).bind fun raw =>
+  readAllFrom dev a bank (useLatch && hasLatch) (raw.headD 0)
+
 /-- `MemoryBank.read_all(addr, use_latch)`; returns `raw_data` -/
 def readAll (arg : AddrArg) (bank : Nat) (hasLatch : Bool) (useLatch : Bool) : Prog (List (Option Nat)) :=
   match resolveAddr arg with
   | .error e => .fail e
-  | .ok (dev, a) =>
-    (readRaw (if dev then .devShort a else .gearShort a) bank [0]).bind fun raw =>
-    let last := raw.headD 0
-    let latch := useLatch && hasLatch
-    let start := if bank = 0 then 2 else 3
-    let reads : Prog (List (Option Nat)) :=
-      (readAllLoop dev a (last + 1 - start) (List.replicate start none)).bind fun (raw, framingError) =>
-      let fin : Prog (List (Option Nat)) :=
-        if framingError then .fail .ResponseError else .done raw
-      if latch then
-        .send (.enableWriteMemory dev a) fun _ =>
-        .send (.dtr0 dev 2) fun _ =>
-        .send (.writeMemoryLocationNoReply dev 0xFF) fun _ => fin
-      else fin
-    let setStart (dtr0 : Nat) : Prog (List (Option Nat)) :=
-      if dtr0 ≠ start then .send (.dtr0 dev start) fun _ => reads else reads
-    if latch then
-      .send (.enableWriteMemory dev a) fun _ =>
-      .send (.dtr0 dev 2) fun _ =>
-      .send (.writeMemoryLocationNoReply dev 0xAA) fun _ => setStart 3
-    else setStart 1
+  | .ok (dev, a) => readAllBody dev a bank hasLatch useLatch
 
 /-- `MemoryValue.from_list(list_)`: the raw bytes, or `MemoryLocationNotImplemented` -/
 def fromList (raw : List (Option Nat)) : List Nat → Option (List Nat)
